@@ -222,9 +222,9 @@ func run(r *engine.Run) {
 	if err := refSelfTest(); err != nil {
 		engine.Fatal3("%v", err)
 	}
-	nPure, nVals, nMem, nSign := 4, 4, 5, 4
+	nMem, nSign := 5, 4
 	if !quick {
-		nPure, nVals, nMem, nSign = 6, 5, 6, 5
+		nMem, nSign = 6, 5
 	}
 	if quick {
 		r.Bound = "QUICK. pure samplers (ChooseOne/ChooseSome/ChooseSomeMaxWeight): every ordered weight vector over {1,2,3,10^6,2^62,2^63} of length 1..4, " +
@@ -243,7 +243,6 @@ func run(r *engine.Run) {
 			"6 validators {E,I}^6 x {3,10^6,1.5*10^6,2^62}^6; near-2^64 as quick. MsgRequestData: additionally 4 equal-stake validators and 5 validators {E,I,U}^5. " +
 			"tss GetRandomMembers: groups of 1..6 members; RequestSigning + retry: 1..5 members. rolling seed as quick"
 	}
-	_ = nPure
 	r.Rule = "one evaluation = one call of a real function/handler on one enumerated tuple compared with the reference; tuples are enumerated by " +
 		"odometer over the stated alphabets (no sampling); an evaluation is non-trivial when the real code returned a committee; " +
 		"distinct_nontrivial counts distinct (part, eligible configuration, size, returned committee) combinations"
@@ -277,13 +276,30 @@ func run(r *engine.Run) {
 		r.CapReasons = append(r.CapReasons, "C09_ONLY="+d.only+": partial run")
 	}
 
+	// cheap parts first; in the thorough tier the large extensions follow in order of importance, so that an
+	// internal time cap (exhaustive:false) still leaves at least the quick coverage complete
 	d.runDRBG()
-	d.runPure(quick, nPure)
+	d.runPureBase()
 	d.runSeed()
 	d.runMembers(nMem)
 	d.runSigning(nSign)
 	d.runValTx(quick)
-	d.runVals(quick, nVals)
+	d.runValsNear()
+	if quick {
+		d.pureUnits("pure:n=5:reduced-alphabet", vectors([]uint64{1, 3, 1_000_000, w62, w63}, 5))
+		d.runValsQuick()
+	} else {
+		d.pureUnits("pure:n=5", vectors(pureAlphabet, 5))
+		d.runVals4Thorough()
+		d.pureUnits("pure:n=6", vectors(pureAlphabet, 6))
+		var wide [][]uint64
+		for n := 1; n <= 5; n++ {
+			wide = append(wide, vectors(pureAlphabetWide, n)...)
+		}
+		d.pureUnits("pure:wide-alphabet:n<=5", wide)
+		d.runVals5()
+		d.runVals6()
+	}
 
 	d.tally.MergeInto(r)
 	for i := range d.shards {
